@@ -50,7 +50,8 @@ BUDGET_S = {"quick": 400, "thorough": 3000}
 FWD = ["exactsolve", "custom_exactsolve", "cg", "bicgstab", "gmres", "broyden1"]
 BCK = ["default", "exactsolve", "cg", "bicgstab", "gmres", "broyden1"]
 PLACEMENTS = ["dense_leaf", "dense_derived", "mf_leaf", "mf_leaf_mv", "mf_derived", "add_shared", "add_two",
-              "matmul", "scale", "adj", "mf_unused", "jac_mod", "jac_fn", "add_dense", "matmul_dense", "sub_two"]
+              "matmul", "scale", "adj", "mf_unused", "jac_mod", "jac_fn", "add_dense", "matmul_dense", "sub_two", "view_two", "detach_two",
+              "scale_in_sum"]
 JACS = ("jac_mod", "jac_fn")
 HERM_PL = ("dense_derived", "mf_derived")
 LEAF_PL = ("dense_leaf", "mf_leaf", "mf_leaf_mv", "mf_unused")      # the operator holds the leaf tensor itself
@@ -210,6 +211,28 @@ def _lazy_classes():
         def _getparamnames(self, prefix=""):
             return [prefix + "mat", prefix + "extra"]
 
+    class OpPair(LinearOperator):
+        """A = (a + b') / 2 from TWO DISTINCT tensor objects that share their storage: b' = b^T with b = a^T (a view
+        of a), or b' = b with b = a.detach() (a frozen alias).  Both are declared parameters."""
+
+        def __init__(self, a, b, tr):
+            super().__init__(shape=a.shape, is_hermitian=False, dtype=a.dtype, device=a.device)
+            self.a = a
+            self.b = b
+            self.tr = tr
+
+        def _full(self):
+            return 0.5 * (self.a + (self.b.transpose(-2, -1) if self.tr else self.b))
+
+        def _mv(self, x):
+            return torch.matmul(self._full(), x.unsqueeze(-1)).squeeze(-1)
+
+        def _rmv(self, x):
+            return torch.matmul(self._full().transpose(-2, -1).conj(), x.unsqueeze(-1)).squeeze(-1)
+
+        def _getparamnames(self, prefix=""):
+            return [prefix + "a", prefix + "b"]
+
     class TanhMod(xitorch.EditableModule):
         def __init__(self, w, c):
             self.w = w
@@ -223,7 +246,7 @@ def _lazy_classes():
                 return [prefix + "w", prefix + "c"]
             raise KeyError(methodname)
 
-    _CLS = {"OpUnused": OpUnused, "TanhMod": TanhMod}
+    _CLS = {"OpUnused": OpUnused, "TanhMod": TanhMod, "OpPair": OpPair}
     return _CLS
 
 
@@ -322,6 +345,22 @@ def build(cfg):
             q = leaf("Q", 0.5 * a0 + s, "A")
             adense = lambda: p - q
             mkA = lambda: sc.OpMVR(p) - sc.OpFull(q)
+        elif place in ("view_two", "detach_two"):
+            # two distinct tensor objects with one storage (a transposed view / a detached alias of the leaf)
+            p = leaf("P", a0, "A")
+            if place == "view_two":
+                adense = lambda: 0.5 * (p + p.transpose(-2, -1).transpose(-2, -1))
+                mkA = lambda: cls["OpPair"](p, p.transpose(-2, -1), True)
+            else:
+                adense = lambda: 0.5 * (p + p.detach())
+                mkA = lambda: cls["OpPair"](p, p.detach(), False)
+        elif place == "scale_in_sum":
+            # a scaled matrix-free operator as the SECOND operand of a sum / difference of operators of one class
+            s_ = 0.3 * sc._fixed(n, dt, 11)
+            p = leaf("P", 2.0 * a0 + s_, "A")
+            q = leaf("Q", 0.5 * (a0 + s_), "A")
+            adense = lambda: p - q * 2.0
+            mkA = lambda: sc.OpMVR(p) - sc.OpMVR(q) * 2.0
         elif place == "matmul_dense":
             gm = eye + 0.4 * sc._fixed(n, dt, 12)
             p = leaf("P", gm, "A")
